@@ -25,7 +25,8 @@ func sanAtoms() []gnAtom {
 	u := func(s string) gnAtom { return gnAtom{"uri:" + s, func() *Node { return gnURI(s) }} }
 	e := func(s string) gnAtom { return gnAtom{"email:" + s, func() *Node { return gnEmail(s) }} }
 	ip := func(b ...byte) gnAtom { return gnAtom{fmt.Sprintf("ip:%x", b), func() *Node { return gnIP(b) }} }
-	return []gnAtom{
+	base := boundaryAtoms(d, u, e)
+	return append(base, []gnAtom{
 		d("www.example.com"), d("example.org"), d("*.example.com"), d("a.*.example.com"), d("under_score.example.com"), d("x--y.example.com"),
 		d("-bad.example.com"), d("bad-.example.com"), d("example.notatld"), d("localhost"), d("EXAMPLE.com"), d("Example.COM"), d("example.com"),
 		d("a.b.c.d.e.example.com"), d(strings.Repeat("a", 64) + ".example.com"), d("xn--mnchen-3ya.de"), d("xn--abc.example.com"), d("xn--e-xbb.example.com"), d("xn--cafe-yvc.example.org"), d("xn--99999999.example.com"), d("xn---.example.com"), d("a..example.com"),
@@ -39,7 +40,27 @@ func sanAtoms() []gnAtom {
 		{"dirname", func() *Node {
 			return cons(0xA4, cons(0x30, cons(0x31, cons(0x30, prim(0x06, []byte{0x55, 0x04, 0x03}), prim(0x0C, []byte("dn"))))))
 		}},
+	}...)
+}
+
+// boundaryAtoms: names at the numeric limits the duplicated rules test (label length 63 in octets vs. in
+// characters, empty labels at every position, total length), in ASCII, in multi-byte UTF-8 and in invalid UTF-8.
+func boundaryAtoms(d, u, e func(string) gnAtom) []gnAtom {
+	var out []gnAtom
+	for _, n := range []int{62, 63, 64, 65} {
+		out = append(out, d(strings.Repeat("a", n)+".example.com"), d("www."+strings.Repeat("b", n)+".com"), d("x."+strings.Repeat("c", n)))
 	}
+	for _, k := range []int{31, 32, 33} { // 62, 64, 66 octets but at most 33 characters
+		out = append(out, d(strings.Repeat("\u00e9", k)+".example.com"))
+	}
+	for _, k := range []int{21, 22} { // 63, 66 octets, 21/22 characters
+		out = append(out, d(strings.Repeat("\u20ac", k)+".example.com"))
+	}
+	out = append(out, d(strings.Repeat("\xff", 63)+".example.com"), d(strings.Repeat("\xff", 64)+".example.com"), d(strings.Repeat("a", 60)+"\u00e9\u00e9.example.com"))
+	out = append(out, d(".example.com"), d("example..com"), d("."), d(".."), d("a."), d(".a"), d("a.b..c.d"))
+	out = append(out, d(strings.Repeat("a.", 126)+"com"), d(strings.Repeat("a.", 127)+"com"))
+	out = append(out, u("https://ex\u00e4mple.com/"), u("https://example.com/p\u00e4th"), u("http://\xff/"), e("\u00e4lice@example.com"), e("alice@ex\u00e4mple.com"))
+	return out
 }
 
 func statusVector(o *Obj, g lint.Registry) (map[string]lint.LintStatus, bool) {
